@@ -27,6 +27,21 @@ def main():
         "set": list(set(names)),
         "chrom_set": list(set(sc.get("chroms", []))),
     }
+    if "sequence" in sc:
+        # several commands one after the other in this one interpreter, each writing into its own directory
+        err = None
+        done = 0
+        try:
+            for step in sc["sequence"]:
+                sub = os.path.join(out, step["tag"])
+                os.makedirs(sub, exist_ok=True)
+                with contextlib.redirect_stdout(io.StringIO()):
+                    run(step["cmd"], step["args"], sub, "")
+                done += 1
+        except BaseException as e:  # noqa
+            err = f"step {done} ({sc['sequence'][done]['tag']}): {type(e).__name__}: {e}"
+        print(json.dumps({"orders": orders, "error": err, "hashseed": os.environ.get("PYTHONHASHSEED")}))
+        return
     cmd = sc["cmd"]
     a = sc["args"]
     repeat = sc.get("repeat", 1)
